@@ -5,6 +5,7 @@ import (
 	"fmt"
 	"io"
 	"os"
+	"os/signal"
 	"time"
 
 	"verif/harness/internal/prng"
@@ -30,6 +31,7 @@ type GenSpec struct {
 	Gate    string     `json:"gate,omitempty"`    // if set: after chunk k wait until file <gate>.<k> exists
 	PidFile string     `json:"pidfile,omitempty"` // if set: write own pid there first
 	StartMs int        `json:"start_ms,omitempty"`
+	IgnoreInt bool     `json:"ignore_sigint,omitempty"` // do not exit on SIGINT (a command that has to be killed)
 	Pad     string     `json:"pad,omitempty"` // ignored filler (lets payload sizes vary)
 }
 
@@ -55,6 +57,9 @@ func workgenMain() {
 	if err := json.Unmarshal(in, &g); err != nil {
 		fmt.Fprintln(os.Stderr, "workgen: bad spec:", err)
 		os.Exit(98)
+	}
+	if g.IgnoreInt {
+		signal.Ignore(os.Interrupt)
 	}
 	if g.PidFile != "" {
 		_ = os.WriteFile(g.PidFile+".tmp", []byte(fmt.Sprint(os.Getpid())), 0o644)
